@@ -162,3 +162,17 @@ def oracle_C01(rec):
 
 
 ORACLES = {"C11": oracle_C11, "C01": oracle_C01, "C19": oracle_C11}
+
+
+def shrink_candidates(rec):
+    c = case_from_record(rec)
+    V = c["V"]
+    n, d = V.shape
+    for i in range(n):
+        if n > 1:
+            keep = [j for j in range(n) if j != i]
+            yield dict(c, V=V[keep], Xb=c["Xb"][keep])
+    for j in range(d):
+        if d > 1:
+            keep = [k for k in range(d) if k != j]
+            yield dict(c, V=V[:, keep], Xb=c["Xb"][:, keep], xl=c["xl"][keep], xu=c["xu"][keep])
